@@ -689,6 +689,36 @@ def run(ctx):
                 continue
             g = prog.fn(name)
             cks = g.calls_to(CHECK)
+            if not cks:
+                # the test may be shared with check_depth through a private helper (`check_depth_against(new_depth, limit)`):
+                # read through it, every path passes a comparison with the recursion limit whose exceeding side cannot
+                # return Ok
+                gv = prog.view(name, keep=("depth", "len"), max_blocks=40)
+                tests = []
+                for sb in sorted(gv.reachable):
+                    if gv.term(sb)["k"] != "switch":
+                        continue
+                    cd_ = flow.cond_of(gv, sb)
+                    if cd_.kind != "bin" or cd_.rv["op"] not in ("Gt", "Ge", "Lt", "Le"):
+                        continue
+                    la_ = any("recursion_limit" in o.proj for o in flow.origins(gv, cd_.rv["a"]))
+                    lb_ = any("recursion_limit" in o.proj for o in flow.origins(gv, cd_.rv["b"]))
+                    if la_ == lb_:
+                        continue
+                    exceed_on_true = (lb_ and cd_.rv["op"] in ("Gt", "Ge")) or (la_ and cd_.rv["op"] in ("Lt", "Le"))
+                    if cd_.neg:
+                        exceed_on_true = not exceed_on_true
+                    within = cfg.bool_edges(gv, sb, not exceed_on_true)
+                    reach_ = cfg.reach_with_variant_phis(gv, within)
+                    ok_after = any(st_["k"] == "assign" and st_["place"] == {"l": 0} and st_["rv"].get("variant") == "Ok"
+                                   for r_ in reach_ for st_ in gv.stmts(r_))
+                    if not ok_after:
+                        tests.append(sb)
+                ctx.ob("C11.R1.charge-calls-check_depth", tag + name,
+                       bool(tests) and cfg.paths_must_pass(gv, 0, tests, gv.returns()),
+                       "a path through the charge function skips the comparison with the recursion limit (read through helpers: %s)"
+                       % getattr(gv, "inlined", []), g.loc)
+                continue
             ctx.ob("C11.R1.charge-calls-check_depth", tag + name,
                    len(cks) >= 1 and cfg.paths_must_pass(g, 0, [k.bb for k in cks], g.returns()),
                    "a path through the charge function skips check_depth", g.loc)
@@ -697,6 +727,10 @@ def run(ctx):
                 ctx.ob("C11.R1.charge-propagates-limit-error", tag + name,
                        bool(ds) and all(d[0] in ("returned", "propagated") for d in ds), "%s" % ds, g.where(k.bb))
         ck = prog.fn(CHECK)
+        in_view = False
+        if not any(ck.term(b_)["k"] == "switch" for b_ in ck.reachable):
+            ck = prog.view(CHECK, keep=("depth", "len"), max_blocks=40)      # the comparison sits in a shared helper
+            in_view = True
         cmp_ok = False
         detail = ""
         for bb in sorted(ck.reachable):
@@ -715,7 +749,7 @@ def run(ctx):
                 errs_true = None
                 for v, x in t["arms"] + [["otherwise", t["otherwise"]]]:
                     reach = cfg.reach_from(ck, x)
-                    has_err = any(s["k"] == "assign" and s["place"] == {"l": 0} and s["rv"].get("variant") == "Err"
+                    has_err = any(s["k"] == "assign" and (s["place"] == {"l": 0} or (in_view and "p" not in s["place"])) and s["rv"].get("variant") == "Err"
                                   for r in reach for s in ck.stmts(r))
                     if v == "0":
                         err_on_false = has_err
